@@ -3,7 +3,7 @@
    The int kernels (add_int … length_int, negate) are TRANSLATED from operator.go / func.go of the
    current tree (coq/gen/GenArith.v); NumModel is the hand model of representation dispatch. *)
 From Coq Require Import ZArith List NArith.
-From Verif Require Import common.Int64 common.Sexp gen.GenArith c10.Arith64 c10.NumModel c10.NumProofs.
+From Verif Require Import common.Int64 common.Sexp gen.GenArith c10.Arith64 c10.NumModel c10.NumProofs c10.Decimal.
 Open Scope Z_scope.
 
 (* The int kernels return the mathematically exact result: an int when it fits in 64 bits, the
@@ -85,6 +85,17 @@ Print Assumptions C10_abs_lit.
 Theorem C10_literal_verbatim : forall t, encode_num (NLit t) = t.
 Proof. exact literal_verbatim. Qed.
 Print Assumptions C10_literal_verbatim.
+
+(* ints and big ints are printed as decimals that read back to exactly the same integer: every digit
+   is kept, whatever the magnitude (print_Z models strconv.AppendInt / big.Int.Append; the enc stream of
+   the correspondence compares it byte for byte with gojq.Marshal) *)
+Theorem C10_int_print_exact : forall z, parse_Z (print_Z z) = Some z.
+Proof. exact parse_print_Z. Qed.
+Print Assumptions C10_int_print_exact.
+
+Theorem C10_encode_reads_back : forall n, wfnum n -> lit_value (encode_num n) = value n.
+Proof. exact encode_reads_back. Qed.
+Print Assumptions C10_encode_reads_back.
 
 (* non-vacuity: the hypotheses are met by concrete boundary operands, where the kernels do promote *)
 Example C10_nonvacuous :
